@@ -743,7 +743,11 @@ static inline std::string compare_obs (const Obs &ref, const Obs &got) {
     if (s >= SH_NAN_F) {
       int base = s & 0xf0, k = s & 0x0f;
       size_t start = i - k;
-      if (k == 0) {  // check once per NaN object: the engine's bytes must be a NaN of that type too
+      size_t osz = base == SH_NAN_F ? 4 : base == SH_NAN_D ? 8 : 10;
+      bool intact = start + osz <= ref.shadow.size ();
+      for (size_t j = 0; intact && j < osz; j++) intact = ref.shadow[start + j] == (uint8_t) (base + j);
+      // a NaN object torn by a later narrower store: its remaining bytes are payload bits, left unconstrained
+      if (k == 0 && intact) {  // check once per NaN object: the engine's bytes must be a NaN of that type too
         bool ok = false;
         if (base == SH_NAN_F && start + 4 <= got.buf.size ()) { float v; memcpy (&v, &got.buf[start], 4); ok = is_nan_f (v); }
         if (base == SH_NAN_D && start + 8 <= got.buf.size ()) { double v; memcpy (&v, &got.buf[start], 8); ok = is_nan_d (v); }
